@@ -7,6 +7,7 @@ import (
 	"errors"
 	"flag"
 	"fmt"
+	"github.com/gorilla/websocket"
 	"os"
 	"runtime"
 	"sort"
@@ -552,6 +553,10 @@ func (p *Probe) execHTTP(base context.Context, c *Cmd, res *Result) []Resp {
 // aborts the CLIENT request (the server then sees its request context cancelled, as
 // with a disconnecting client). Only termination / leaks are of interest here (C05).
 func (p *Probe) execTransport(run *Run, c *Cmd, res *Result) {
+	if strings.HasPrefix(c.Mode, "tp:ws") {
+		p.execWS(run, c, res)
+		return
+	}
 	srv := handler.New(p.ES)
 	srv.AddTransport(transport.SSE{KeepAlivePingInterval: 3 * time.Millisecond})
 	srv.AddTransport(transport.MultipartMixed{})
@@ -625,6 +630,91 @@ func (p *Probe) execTransport(run *Run, c *Cmd, res *Result) {
 	}
 	select {
 	case <-closed:
+	case <-time.After(to):
+		res.Hung = true
+		res.LeakStack = p.gqlgenStacks(4000)
+	}
+}
+
+// execWS runs the operation over the real websocket transport (graphql-transport-ws) with a
+// gorilla client: connection_init, subscribe, frames read until complete / error. The run's
+// cancel function closes the client's TCP connection abruptly (a client that vanishes
+// mid-flight). Mode "tp:ws-noinit": the client upgrades and never sends connection_init -
+// the server's InitTimeout ends the connection. In both cases the handler must return and
+// nothing gqlgen started for the connection may stay alive (C05); the protocol itself is
+// C11's subject and is not judged here.
+func (p *Probe) execWS(run *Run, c *Cmd, res *Result) {
+	srv := handler.New(p.ES)
+	srv.AddTransport(transport.Websocket{KeepAlivePingInterval: 3 * time.Millisecond, InitTimeout: 150 * time.Millisecond})
+	srv.SetRecoverFunc(RecoverFunc)
+	srv.SetErrorPresenter(ErrorPresenter)
+	srv.Use(faultExt{})
+	served := make(chan struct{}, 1)
+	ts := httptest.NewServer(http.HandlerFunc(func(w http.ResponseWriter, r *http.Request) {
+		defer func() { served <- struct{}{} }()
+		srv.ServeHTTP(w, r.WithContext(WithRun(r.Context(), run)))
+	}))
+	defer ts.Close()
+	d := websocket.Dialer{Subprotocols: []string{"graphql-transport-ws"}, HandshakeTimeout: 5 * time.Second}
+	conn, _, err := d.Dial("ws"+strings.TrimPrefix(ts.URL, "http")+"/", nil)
+	if err != nil {
+		res.Notes = append(res.Notes, "transport tp:ws dial failed: "+err.Error())
+		res.Resps = append(res.Resps, Resp{Errs: []ErrP{}, HasNext: "-", Data: Tagged{"t": "absent"}})
+		return
+	}
+	var once sync.Once
+	drop := func() { once.Do(func() { conn.UnderlyingConn().Close() }) }
+	run.mu.Lock()
+	run.RespMarks = true
+	run.Cancel = drop
+	run.mu.Unlock()
+	frames, end := 0, "eof"
+	conn.SetReadDeadline(time.Now().Add(20 * time.Second))
+	type msg struct {
+		ID      string          `json:"id,omitempty"`
+		Type    string          `json:"type"`
+		Payload json.RawMessage `json:"payload,omitempty"`
+	}
+	read := func(until func(m msg) bool) bool {
+		for {
+			var m msg
+			if err := conn.ReadJSON(&m); err != nil {
+				return false
+			}
+			frames++
+			if until(m) {
+				return true
+			}
+		}
+	}
+	if c.Mode == "tp:ws-noinit" {
+		// never initialise: the server gives up after InitTimeout and closes
+		read(func(m msg) bool { return false })
+		end = "closed-by-server"
+	} else if conn.WriteJSON(msg{Type: "connection_init"}) == nil && read(func(m msg) bool { return m.Type == "connection_ack" }) {
+		pl, _ := json.Marshal(map[string]any{"query": c.Query, "operationName": c.OpName, "variables": c.Vars})
+		if conn.WriteJSON(msg{ID: "1", Type: "subscribe", Payload: pl}) == nil {
+			if read(func(m msg) bool {
+				if m.Type == "ping" {
+					conn.WriteJSON(msg{Type: "pong"})
+				}
+				return m.ID == "1" && (m.Type == "complete" || m.Type == "error")
+			}) {
+				end = "complete"
+				conn.WriteControl(websocket.CloseMessage, websocket.FormatCloseMessage(websocket.CloseNormalClosure, ""), time.Now().Add(time.Second))
+			}
+		}
+	}
+	drop()
+	res.Notes = append(res.Notes, fmt.Sprintf("transport %s frames=%d end=%s", c.Mode, frames, end))
+	res.Resps = append(res.Resps, Resp{Errs: []ErrP{}, HasNext: "-", Data: Tagged{"t": "absent"}})
+	// the handler (the connection's run loop) must return
+	to := 5 * time.Second
+	if c.TimeoutMs > 0 {
+		to = time.Duration(c.TimeoutMs) * time.Millisecond
+	}
+	select {
+	case <-served:
 	case <-time.After(to):
 		res.Hung = true
 		res.LeakStack = p.gqlgenStacks(4000)
